@@ -32,7 +32,7 @@ pub fn spawn_async_ao_list_in_task<'a>(ao_list: &ast::AndOrList, shell: &'a mut 
 { unimplemented!() }
 
 pub enum St {
-    At { k: int, code: ExecutionExitCode, synced: bool },     // items 0..k done, all with normal flow; `synced`: $? == code
+    At { k: int, code: ExecutionExitCode, synced: bool },     // items 0..k done, all with normal flow; `synced`: $? == code (always, once an item has run: an asynchronous list leaves $? = 0)
     Done(ExecutionControlFlow, ExecutionExitCode),
     Err,
     Bad,
@@ -43,7 +43,7 @@ pub open spec fn cl_step(st: St, e: Ev, l: ast::CompoundList, outer: bool) -> St
             if k < 0 || k >= l.0@.len() { St::Bad }
             else if l.0@[k].1 is Async {
                 if e.node != Node::Async(l.0@[k].0) { St::Bad }
-                else { St::At { k: k + 1, code: ExecutionExitCode::Success, synced: false } }
+                else { St::At { k: k + 1, code: ExecutionExitCode::Success, synced: true } }
             } else {
                 if e.node != Node::AndOr(l.0@[k].0) || e.suppress != outer { St::Bad }
                 else if !e.ok { St::Err }
